@@ -2370,4 +2370,42 @@ example : ∃ rows, run world Quirks.keyed schema dom anyDedup = some rows ∧
     ∀ r, r ∈ rows ↔ ∃ x ∈ dom, r = [x] ∧ matchesPat world anyDedup x = true :=
   C11_full world schema dom 4 false _ (by decide) (by decide) (by decide) (by decide) (by decide) (by decide)
 
+/-! ## re-evaluation of one query object over changing data -/
+
+/-- **C11_history_independent.** The answers of the successive evaluations of one query object are the answers of
+`run` on the successive data states: the k-th answer depends on the data at that time only, not on earlier
+evaluations or on what the data used to be. -/
+theorem C11_history_independent (Q : Quirks) (s : Schema) (dom : List Val) (p : Pat) :
+    ∀ (steps : List (List Edit)) (w : World),
+      runSeq Q s dom p w steps = (worlds w steps).map fun w' => run w' Q s dom p := by
+  intro steps
+  induction steps with
+  | nil => intro w; rfl
+  | cons st rest ih => intro w; simp only [runSeq, worlds, List.map_cons, ih]
+
+theorem mem_zip_map {α β} (f : α → β) : ∀ (l : List α) (a : α × β), a ∈ l.zip (l.map f) → a.2 = f a.1 := by
+  intro l
+  induction l with
+  | nil => intro a h; simp at h
+  | cons x l ih =>
+    intro a h
+    simp only [List.map_cons, List.zip_cons_cons, List.mem_cons] at h
+    rcases h with h | h
+    · subst h; rfl
+    · exact ih a h
+
+/-- hence every evaluation in the sequence returns exactly the elements that match in the data of that moment
+(`C11_equiv_partial` at each state that conforms to the schema) -/
+theorem C11_seq_equiv_partial (s : Schema) (dom : List Val) (T : Nat) (rootSel : Bool) (as : Assigns)
+    (steps : List (List Edit)) (w0 : World) (hnosel : as.nSel = 0) :
+    ∀ a ∈ (worlds w0 steps).zip (runSeq Quirks.today s dom (.mk (some T) rootSel as) w0 steps),
+      conformsB a.1 s = true → (Pat.mk (some T) rootSel as).wf s a.1.subclass = true →
+      triggers a.1 s (.mk (some T) rootSel as) = [] →
+      ∃ rows, a.2 = some rows ∧
+        ∀ r, r ∈ rows ↔ ∃ x ∈ dom, r = [x] ∧ matchesPat a.1 (.mk (some T) rootSel as) x = true := by
+  intro a ha hconf hwf hclean
+  rw [C11_history_independent] at ha
+  rw [mem_zip_map _ _ a ha]
+  exact C11_equiv_partial a.1 s dom T rootSel as hconf hwf hclean hnosel
+
 end KrroodVerif.Match
